@@ -403,6 +403,65 @@ func (e *c04env) zipsOf(wholeContent []byte) (zs [][]int, bad string) {
 	return
 }
 
+// zipsOfNew: the zips that are not in [before], by part index
+func (e *c04env) zipsOfNew(before map[string]bool) (zs [][]int, bad string) {
+	type zinfo struct {
+		part int
+		ids  []int
+	}
+	var infos []zinfo
+	e.large.mu.Lock()
+	defer e.large.mu.Unlock()
+	for name, data := range e.large.m {
+		if before[name] {
+			continue
+		}
+		zr, err := zip.NewReader(bytes.NewReader(data), int64(len(data)))
+		if err != nil {
+			continue
+		}
+		var mf blobpacked.Manifest
+		var ids []int
+		for _, f := range zr.File {
+			if f.Name == "camlistore/camlistore-pack-manifest.json" {
+				rc, _ := f.Open()
+				json.NewDecoder(rc).Decode(&mf)
+				rc.Close()
+			}
+			if strings.HasPrefix(f.Name, "camlistore/sha") && strings.HasSuffix(f.Name, ".json") {
+				ref := strings.TrimSuffix(strings.TrimPrefix(f.Name, "camlistore/"), ".json")
+				if b := e.byRef[ref]; b != nil {
+					ids = append(ids, b.id)
+				}
+			}
+		}
+		var data2 []int
+		for _, db := range mf.DataBlobs {
+			if b := e.byRef[db.Ref.String()]; b != nil {
+				data2 = append(data2, b.id)
+			}
+		}
+		infos = append(infos, zinfo{mf.WholePartIndex, append(data2, ids...)})
+	}
+	sort.Slice(infos, func(i, j int) bool { return infos[i].part < infos[j].part })
+	for _, in := range infos {
+		zs = append(zs, in.ids)
+	}
+	return
+}
+
+func c04zsCoqFrom(zs [][]int, base int) string {
+	var parts []string
+	for i, ids := range zs {
+		var s []string
+		for _, id := range ids {
+			s = append(s, fmt.Sprint(id))
+		}
+		parts = append(parts, fmt.Sprintf("(%d, [%s])", base+i, strings.Join(s, "; ")))
+	}
+	return "[" + strings.Join(parts, "; ") + "]"
+}
+
 func c04zsCoq(zs [][]int) string {
 	var parts []string
 	for i, ids := range zs {
@@ -417,7 +476,7 @@ func c04zsCoq(zs [][]int) string {
 
 func runC04(c *ctx) {
 	c.rep.Rule = "files of 520-900 KiB (random bytes, a file with a repeated 64 KiB block = repeated chunks, the same content under a second name) chunked by schema.WriteFileFromReader; chunks and schema blobs uploaded in a random order, the file schema blob last (its receive triggers the pack); maximum zip size forced to 400-600 KiB (verif hook) so that packs have 2-5 zips, or left at 16 MiB (one zip); " +
-		"a first run learns the zips (manifests read with archive/zip; size limit, first entry = contiguous content, name = hash checked), then for EVERY k the same upload is repeated with the process dying after the k-th write (zip stored / meta batch / loose removal per zip, final w: row): restart (no recovery), view; fast recovery, view; full recovery, view; then a removal of a packed blob and a further recovery; " +
+		"a first run learns the zips (manifests read with archive/zip; size limit, first entry = contiguous content, name = hash checked), then for EVERY k the same upload is repeated with the process dying after the k-th write (zip stored / meta batch / loose removal per zip, final w: row): restart (no recovery), view; fast recovery, view; full recovery, view; then a removal of a packed blob and a further recovery; at the last two crash points the same content is uploaded under a second name after the restart, before the recovery; whole-file reads (OpenWholeRef) are compared before and after each recovery; " +
 		"view = fetch, range fetch, stat, enumerate (each blob once) of every logical blob + the raw contents of the loose store, the b: rows and the number of zips; non-trivial = distinct state after a crash, a recovery or a removal"
 	old := log.Writer()
 	log.SetOutput(io.Discard)
@@ -551,6 +610,46 @@ func runC04(c *ctx) {
 			if c.rng.Intn(2) == 0 {
 				mode, mname, flag = blobpacked.FullRecovery, "full", "true"
 			}
+			// the same content under a second name, uploaded after the restart (its chunks are already there)
+			if k >= nwrites-1 && len(zs) > 0 {
+				must(e2.open(blobpacked.NoRecovery))
+				rec2 := &c04rec{}
+				fileRef2, err := schema.WriteFileFromReader(context.Background(), rec2, fmt.Sprintf("other-name-%d.bin", fi), bytes.NewReader(content))
+				must(err)
+				var fb2 []byte
+				for _, b := range rec2.blobs {
+					if blob.RefFromBytes(b) == fileRef2 {
+						fb2 = b
+					}
+				}
+				lb := e2.logical(fb2)
+				before := map[string]bool{}
+				e2.large.mu.Lock()
+				for name := range e2.large.m {
+					before[name] = true
+				}
+				e2.large.mu.Unlock()
+				_, err = blobserver.Receive(context.Background(), e2.sto, lb.ref, bytes.NewReader(fb2))
+				must(err)
+				acked2[lb.id] = true
+				zs2, _ := e2.zipsOf(content)
+				// the zips that are new
+				var newZs [][]int
+				if len(zs2) > len(zs) {
+					all, _ := e2.zipsOfNew(before)
+					newZs = all
+				}
+				ops2 = append(ops2, fmt.Sprintf("OReceive %d", lb.id))
+				if len(newZs) > 0 {
+					ops2 = append(ops2, fmt.Sprintf("OPack %d %s %d%%nat", wholeID, c04zsCoqFrom(newZs, 2000), 3*len(newZs)+1))
+				}
+				human2 = append(human2, fmt.Sprintf("restart; the same content is uploaded under a second name (%d new zips)", len(newZs)))
+				c.count("states", "second name after a crash")
+			}
+			wholeBefore := 0
+			if e2.sto != nil {
+				wholeBefore = e2.wholeRead(content, int64(c.rng.Intn(size)))
+			}
 			if err := e2.open(mode); err != nil {
 				c.violation(len(c.casesBuf), "c04-recovery-failed", fmt.Sprintf("%s recovery after a crash at write %d fails: %v", mname, k, err), human2)
 				continue
@@ -558,6 +657,10 @@ func runC04(c *ctx) {
 			ops2 = append(ops2, "OReindex "+flag)
 			human2 = append(human2, mname+" recovery")
 			e2.observe("crash, "+mname+" recovery", ops2, human2, acked2, nil)
+			c.rep.SpecChecks++
+			if wholeAfter := e2.wholeRead(content, int64(c.rng.Intn(size))); wholeAfter == 2 || (wholeBefore == 1 && wholeAfter != 1) || (k == nwrites && wholeAfter != 1) {
+				c.violation(len(c.casesBuf)-1, "c04-whole-read", fmt.Sprintf("whole-file read through OpenWholeRef: class %d before the %s recovery, %d after it (1 = right bytes)", wholeBefore, mname, wholeAfter), human2)
+			}
 			// removal of a packed blob, then another recovery: removals are forgotten (known finding D9)
 			if k == nwrites && c.rng.Intn(2) == 0 {
 				must(e2.sto.RemoveBlobs(context.Background(), []blob.Ref{victim2(e2, others).ref}))
@@ -579,3 +682,23 @@ func runC04(c *ctx) {
 }
 
 func victim2(e *c04env, others [][]byte) *c03blob { return e.logical(others[0]) }
+
+// wholeRead: 0 = the whole file is not readable through OpenWholeRef, 1 = readable with the right bytes, 2 = wrong bytes
+func (e *c04env) wholeRead(content []byte, off int64) int {
+	wf, ok := e.sto.(interface {
+		OpenWholeRef(wholeRef blob.Ref, offset int64) (rc io.ReadCloser, wholeSize int64, err error)
+	})
+	if !ok {
+		return 0
+	}
+	rc, wsize, err := wf.OpenWholeRef(blob.RefFromBytes(content), off)
+	if err != nil {
+		return 0
+	}
+	defer rc.Close()
+	got, err := io.ReadAll(rc)
+	if err != nil || wsize != int64(len(content)) || !bytes.Equal(got, content[off:]) {
+		return 2
+	}
+	return 1
+}
